@@ -31,23 +31,35 @@ def serial_query(sid, serial): return [1, 1] + be(sid, 2) + be(12, 4) + be(seria
 
 KNOWN_TYPES = {0, 1, 2, 3, 4, 6, 7, 8, 10}
 
+def fixed_size(ty, ver):
+    """smallest legal size of a PDU of a type the client uses (RFC 6810 / 8210 section 5)"""
+    return {0: 12, 1: 12, 2: 8, 3: 8, 4: 20, 6: 32, 7: 24 if ver >= 1 else 12, 8: 8, 10: 8}.get(ty)
+
+KNOWN_TYPES = {0, 1, 2, 3, 4, 6, 7, 8, 10}
+
 def parse_stream(bs):
     """RFC 8210 framing: (list of complete PDUs as dicts, number of bytes they occupy).
-    A PDU is complete when its whole length is present; types the client does not use are kept as 'other'."""
+    A PDU is complete when its whole length is present; types the client does not use are kept as 'other'.
+    A header announcing fewer than 8 bytes, or a PDU of a used type shorter than that type's fixed
+    size, is a protocol error: parsing stops there and the last element is {'type': 'error'}."""
     out, i = [], 0
     while i + 8 <= len(bs):
         v, ty = bs[i], bs[i + 1]
         sid = int.from_bytes(bytes(bs[i + 2:i + 4]), 'big')
         ln = int.from_bytes(bytes(bs[i + 4:i + 8]), 'big')
-        if ln < 8 or i + ln > len(bs): break
+        if ln < 8:
+            out.append({'type': 'error'}); break
+        if i + ln > len(bs): break
+        if ty in KNOWN_TYPES and ln < fixed_size(ty, v):
+            out.append({'type': 'error'}); i += ln; break
         body = bs[i + 8:i + ln]
         p = {'type': ty, 'ver': v, 'sid': sid, 'len': ln}
-        if ty in (0, 1) and len(body) >= 4: p['serial'] = int.from_bytes(bytes(body[:4]), 'big')
-        elif ty == 4 and len(body) >= 12:
+        if ty in (0, 1): p['serial'] = int.from_bytes(bytes(body[:4]), 'big')
+        elif ty == 4:
             p.update(flags=body[0], net=(4, tuple(body[4:8]), body[1]), mx=body[2], asn=int.from_bytes(bytes(body[8:12]), 'big'))
-        elif ty == 6 and len(body) >= 24:
+        elif ty == 6:
             p.update(flags=body[0], net=(6, tuple(body[4:20]), body[1]), mx=body[2], asn=int.from_bytes(bytes(body[20:24]), 'big'))
-        elif ty == 7 and len(body) >= 4: p['serial'] = int.from_bytes(bytes(body[:4]), 'big')
+        elif ty == 7: p['serial'] = int.from_bytes(bytes(body[:4]), 'big')
         out.append(p)
         i += ln
     return out, i
@@ -82,6 +94,7 @@ ASNS = [0, 65001, 65002, 4200000000]
 
 class Prop:
     pid = 'C13'
+    ops_field = 'evs'
     props_file = 'Props/C13.v'
     required_theorems = []
     correspondence_name = ('Model/RtrClient.v run_case (RtrCodec::decode + Framed loop + serve_inner + TableManager::rpki_*) vs '
@@ -154,7 +167,7 @@ class Prop:
 
     def session_stream(self, rng, tier, conforming=True):
         """(list of batches, tags); a batch is the bytes a cache writes in one go"""
-        v = rng.choice([1, 1, 1, 0])
+        v = rng.choice([1, 1, 1, 0, 2])
         sid = rng.choice([0, 1, 7, 65535, rng.randrange(65536)])
         serial = rng.choice([0, 1, 100, 2 ** 32 - 2])
         pool = list(V4POOL) + (list(V6POOL) if rng.random() < 0.6 else [])
@@ -251,9 +264,104 @@ class Prop:
             evs.append(per[c][idx[c]]); idx[c] += 1
         return {'kind': 'conforming' if conforming else 'nonconforming', 'n': n, 'pre': pre, 'evs': evs}
 
+    # ---- classes enumerated on EVERY run (no randomness)
+    def enumerated_cases(self, tier):
+        cases = []
+        n4 = lambda a, b, c, d, m: (4, (a, b, c, d), m)
+        n6 = lambda l, m: (6, tuple(l + [0] * (16 - len(l))), m)
+        A, B, C6 = (n4(10, 0, 0, 0, 8), 24, 65001), (n4(10, 1, 0, 0, 16), 16, 65002), (n6([0x20, 1, 0xd, 0xb8], 32), 48, 65003)
+        ann = lambda r, v=1: pdu_prefix(1, r[0], r[1], r[2], v)
+        wd = lambda r, v=1: pdu_prefix(0, r[0], r[1], r[2], v)
+        def add(cls, evs, n=1, pre=(), kind='conforming'):
+            cases.append({'kind': kind, 'cls': cls, 'n': n, 'pre': list(pre), 'evs': evs})
+        # (a) TCP fragmentation at EVERY offset of a small stream: one cut, every byte alone, (thorough) every pair of cuts
+        S = pdu_cache_response(7) + ann(A) + pdu_router_key(1, list(range(20)), 65001, [1, 2, 3]) + pdu_eod(7, 100) + pdu_notify(7, 101)
+        for cut in range(1, len(S)):
+            add('fragment_one_cut', [('feed', 0, S[:cut]), ('feed', 0, S[cut:]), ('close', 0)])
+        add('fragment_every_byte', [('feed', 0, [b]) for b in S] + [('cancel', 0)])
+        if tier != 'quick':
+            S2 = pdu_cache_response(7, 0) + ann(A, 0) + pdu_eod(7, 100, 0)
+            for c1 in range(1, len(S2)):
+                for c2 in range(c1 + 1, len(S2)):
+                    add('fragment_two_cuts', [('feed', 0, S2[:c1]), ('feed', 0, S2[c1:c2]), ('feed', 0, S2[c2:])])
+        # (b) the length field of every PDU type (used, unused, unassigned) on both sides of 8 and of the
+        #     type's fixed size, in every protocol version; a Serial Notify behind it shows whether the stream goes on
+        good = pdu_cache_response(7) + ann(A) + pdu_eod(7, 100)
+        for ver in (0, 1, 2):
+            for ty in (0, 1, 2, 3, 4, 5, 6, 7, 8, 9, 10, 11, 255):
+                nat = fixed_size(ty, ver) or 8
+                for ln in sorted({0, 1, 7, 8, 9, nat - 1, nat, nat + 1, nat + 8}):
+                    if ln < 0: continue
+                    body = [1, 16, 24, 0, 10, 1, 0, 0, 0, 0, 253, 233] + [0] * 40     # a plausible prefix body, then zeros
+                    pdu = [ver, ty, 0, 7] + be(ln, 4) + body[:max(0, ln - 8)]
+                    bad = ln < 8 or (ty in KNOWN_TYPES and ln < nat)
+                    add('length_field_type%d_%s' % (ty, 'lt8' if ln < 8 else 'short' if bad else 'exact' if ln == nat else 'long'),
+                        [('feed', 0, good), ('feed', 0, pdu + pdu_notify(7, 101, ver)), ('feed', 0, pdu_notify(7, 102, ver)), ('close', 0)],
+                        kind='conforming' if not bad and ty not in (1, 2) else 'nonconforming')
+        # (c) every PDU type at every position of a two-round stream (before Cache Response, in the snapshot,
+        #     between the rounds, in the incremental round, after it)
+        rounds = [pdu_cache_response(7), ann(A), ann(C6), pdu_eod(7, 100), pdu_cache_response(7), ann(B), wd(A), pdu_eod(7, 101)]
+        extras = {'notify_same': pdu_notify(7, 100), 'notify_new': pdu_notify(7, 105), 'notify_other_sid': pdu_notify(9, 106),
+                  'serial_query_from_cache': serial_query(7, 100), 'reset_query_from_cache': RESET_QUERY,
+                  'cache_reset': pdu_cache_reset(), 'error_report_plain': pdu_error(2, [], []),
+                  'error_report_full': pdu_error(3, pdu_notify(7, 1), list(b'corrupt data')), 'router_key': pdu_router_key(0, [9] * 20, 65001, list(range(91))),
+                  'aspa_v2': [2, 11, 0, 0] + be(16, 4) + be(65001, 4) + be(65002, 4), 'unassigned_type_5': [1, 5, 0, 0] + be(8, 4)}
+        for name, x in extras.items():
+            for pos in range(len(rounds) + 1):
+                evs = [('feed', 0, pd) for pd in rounds[:pos]] + [('feed', 0, x)] + [('feed', 0, pd) for pd in rounds[pos:]] + [('feed', 0, pdu_notify(7, 110)), ('soft', 0), ('close', 0)]
+                add('pdu_%s_in_every_phase' % name, evs, kind='nonconforming' if name.endswith('from_cache') else 'conforming')
+        # (d) protocol versions: whole sessions in version 0, 1, 2 (End of Data 12 / 24 / 24 octets), and mixed
+        for ver in (0, 1, 2):
+            add('session_version_%d' % ver, [('feed', 0, pdu_cache_response(7, ver) + ann(A, ver) + ann(C6, ver) + pdu_eod(7, 5, ver)),
+                                             ('feed', 0, pdu_notify(7, 6, ver)), ('feed', 0, pdu_cache_response(7, ver) + wd(A, ver) + ann(B, ver) + pdu_eod(7, 6, ver)), ('cancel', 0)])
+        add('session_version_mixed', [('feed', 0, pdu_cache_response(7, 0) + ann(A, 1) + pdu_eod(7, 5, 2)), ('feed', 0, pdu_cache_response(7, 2) + ann(B, 0) + pdu_eod(7, 6, 0)), ('close', 0)])
+        add('eod_v1_header_with_v0_size', [('feed', 0, pdu_cache_response(7) + ann(A) + [1, 7, 0, 7] + be(12, 4) + be(5, 4)), ('feed', 0, pdu_notify(7, 9)), ('close', 0)], kind='nonconforming')
+        add('eod_v0_header_with_v1_size', [('feed', 0, pdu_cache_response(7, 0) + ann(A, 0) + [0, 7, 0, 7] + be(24, 4) + be(5, 4) + [0] * 12), ('feed', 0, pdu_notify(7, 9, 0)), ('close', 0)])
+        # (e) session id and serial: change mid-stream, extremes, wrap
+        add('session_id_change_mid_stream', [('feed', 0, pdu_cache_response(1) + ann(A) + pdu_eod(1, 100)), ('feed', 0, pdu_notify(1, 101)),
+                                            ('feed', 0, pdu_cache_response(2) + ann(B) + pdu_eod(2, 7)), ('feed', 0, pdu_notify(2, 8)), ('soft', 0), ('close', 0)])
+        for sid, ser in ((0, 0), (65535, 4294967295), (65535, 0)):
+            add('session_id_serial_extremes', [('feed', 0, pdu_cache_response(sid) + ann(A) + pdu_eod(sid, ser)), ('feed', 0, pdu_notify(sid, (ser + 1) % 2 ** 32)),
+                                               ('feed', 0, pdu_cache_response(sid) + ann(B) + pdu_eod(sid, (ser + 1) % 2 ** 32)), ('soft', 0), ('close', 0)])
+        # (f) payload corner cases
+        add('eod_without_cache_response', [('feed', 0, ann(A) + pdu_eod(7, 1)), ('feed', 0, ann(B) + pdu_eod(7, 2)), ('feed', 0, pdu_eod(7, 3)), ('close', 0)])
+        add('empty_snapshot_and_empty_rounds', [('feed', 0, pdu_cache_response(7) + pdu_eod(7, 1)), ('feed', 0, pdu_cache_response(7) + pdu_eod(7, 2)), ('feed', 0, pdu_cache_response(7) + ann(A) + pdu_eod(7, 3)), ('close', 0)])
+        add('withdraw_never_announced', [('feed', 0, pdu_cache_response(7) + ann(A) + pdu_eod(7, 1)), ('feed', 0, pdu_cache_response(7) + wd(B) + wd((A[0], 25, 65001)) + wd((A[0], 24, 65002)) + pdu_eod(7, 2)), ('close', 0)])
+        add('duplicate_announce', [('feed', 0, pdu_cache_response(7) + ann(A) + ann(A) + ann(B) + pdu_eod(7, 1)), ('feed', 0, pdu_cache_response(7) + ann(A) + ann(B) + ann(B) + pdu_eod(7, 2)),
+                                   ('feed', 0, pdu_cache_response(7) + wd(A) + pdu_eod(7, 3)), ('feed', 0, pdu_cache_response(7) + wd(A) + ann(A) + wd(A) + ann(A) + pdu_eod(7, 4)), ('close', 0)])
+        add('withdraw_in_snapshot', [('feed', 0, pdu_cache_response(7) + ann(A) + wd(A) + ann(B) + pdu_eod(7, 1)), ('close', 0)], kind='nonconforming')
+        add('interleaved_ipv4_ipv6', [('feed', 0, pdu_cache_response(7) + ann(A) + ann(C6) + ann(B) + ann((n6([0x20, 1, 0xd, 0xb8, 0x80], 33), 64, 65001)) + pdu_eod(7, 1)),
+                                      ('feed', 0, pdu_cache_response(7) + wd(C6) + ann((n6([], 0), 0, 0)) + wd(B) + pdu_eod(7, 2)), ('close', 0)])
+        for fl in (0, 1, 2, 3, 254, 255):
+            add('flags_value_%d' % fl, [('feed', 0, pdu_cache_response(7) + ann(A) + ann(B) + pdu_eod(7, 1)),
+                                        ('feed', 0, pdu_cache_response(7) + pdu_prefix(fl, A[0], A[1], A[2]) + pdu_prefix(fl, C6[0], C6[1], C6[2]) + pdu_eod(7, 2)), ('close', 0)],
+                kind='conforming' if fl < 2 else 'nonconforming')
+        ext = [(n4(10, 1, 0, 0, 0), 0, 0), (n4(255, 255, 255, 255, 32), 32, 4294967295), (n4(10, 1, 0, 0, 33), 255, 1), (n4(10, 1, 0, 0, 255), 0, 1),
+               (n6([255] * 16, 128), 128, 4294967295), (n6([0x20, 1], 129), 255, 0)]
+        add('prefix_field_extremes', [('feed', 0, pdu_cache_response(7) + [x for r in ext for x in ann(r)] + pdu_eod(7, 1)),
+                                      ('feed', 0, pdu_cache_response(7) + [x for r in ext[::2] for x in wd(r)] + pdu_eod(7, 2)), ('close', 0)])
+        many = [(n4(10, i // 256, i % 256, 0, 24), 24, 65000 + i % 3) for i in range(300)]
+        add('snapshot_of_300_then_withdraw_all', [('feed', 0, pdu_cache_response(7) + [x for r in many for x in ann(r)] + pdu_eod(7, 1)),
+                                                  ('feed', 0, pdu_cache_response(7) + [x for r in many for x in wd(r)] + pdu_eod(7, 2)), ('cancel', 0)])
+        # (g) soft reset, close and cancel in every phase (also in the middle of a PDU)
+        flow = [pdu_cache_response(7), ann(A)[:11], ann(A)[11:], pdu_eod(7, 1), pdu_cache_response(7), ann(B), pdu_eod(7, 2)]
+        for what in ('soft', 'close', 'cancel'):
+            for pos in range(len(flow) + 1):
+                evs = [('feed', 0, pd) for pd in flow[:pos]] + [(what, 0)] + [('feed', 0, pd) for pd in flow[pos:]] + [('soft', 0), ('close', 0)]
+                add('%s_in_every_phase' % what, evs)
+        add('soft_reset_twice_before_eod', [('soft', 0), ('soft', 0), ('feed', 0, pdu_cache_response(7) + pdu_eod(7, 1)), ('soft', 0), ('soft', 0), ('close', 0)])
+        # (h) two caches / two sessions
+        add('same_vrp_from_two_caches_and_foreign', [('feed', 0, pdu_cache_response(1) + ann(A) + pdu_eod(1, 1)), ('feed', 1, pdu_cache_response(2) + ann(A) + ann(B) + pdu_eod(2, 1)),
+                                                     ('feed', 0, pdu_cache_response(1) + wd(A) + pdu_eod(1, 2)), ('feed', 1, pdu_cache_response(2) + wd(B) + pdu_eod(2, 2)), ('close', 0), ('cancel', 1)], n=2, pre=[A, B])
+        add('second_session_after_the_first_ended', [('feed', 0, pdu_cache_response(1) + ann(A) + ann(B) + pdu_eod(1, 9)), ('close', 0), ('feed', 0, ann(C6)),
+                                                     ('feed', 1, pdu_cache_response(5) + ann(B) + pdu_eod(5, 1)), ('feed', 1, pdu_notify(5, 2)), ('cancel', 1)], n=2)
+        add('one_session_broken_other_untouched', [('feed', 0, pdu_cache_response(1) + ann(A) + pdu_eod(1, 1)), ('feed', 1, pdu_cache_response(2) + ann(A) + pdu_eod(2, 1)),
+                                                   ('feed', 0, [1, 3, 0, 1, 0, 0, 0, 4]), ('feed', 1, pdu_notify(2, 2)), ('feed', 0, ann(B))], n=2, kind='nonconforming')
+        return cases
+
     def gen_cases(self, rng, tier):
         n4 = lambda a, b, c, d, m: (4, (a, b, c, d), m)
-        cases = [
+        cases = self.enumerated_cases(tier) + [
             # two incremental rounds: announce + withdraw after the first End-of-Data, then a second End-of-Data
             {'kind': 'seed', 'n': 1, 'pre': [(n4(9, 9, 0, 0, 16), 16, 1)], 'evs': [
                 ('feed', 0, pdu_cache_response(7) + pdu_prefix(1, n4(10, 0, 0, 0, 8), 24, 65001) + pdu_prefix(1, n4(10, 1, 0, 0, 16), 16, 65002) + pdu_eod(7, 100)),
@@ -279,7 +387,9 @@ class Prop:
                 ('feed', 0, pdu_cache_response(1) + pdu_prefix(0, n4(10, 0, 0, 0, 8), 24, 65001) + pdu_eod(1, 6)),
                 ('close', 1), ('cancel', 0)]},
         ]
-        nc, nn = (700, 120) if tier == 'quick' else (2000, 300)
+        nc, nn = (500, 100) if tier == 'quick' else (2000, 300)
+        sc = float(os.environ.get('VERIF_RANDOM_SCALE', '1'))
+        nc, nn = int(nc * sc), int(nn * sc)
         for _ in range(nc): cases.append(self.gen_case(rng, tier, True))
         for _ in range(nn): cases.append(self.gen_case(rng, tier, False))
         return cases
@@ -303,9 +413,10 @@ class Prop:
         n = c['n']
         foreign = sorted(set((nn[0], tuple(nn[1]), nn[2], mx, a, 9) for nn, mx, a in c['pre']))
         stream = [[] for _ in range(n)]        # bytes delivered so far, per session
-        ended = [False] * n
-        softs = [0] * n
+        ended = [False] * n                    # the cache closed / the client was cancelled
         conforming = c.get('kind') != 'nonconforming'
+        # what a router does with the stream (RFC 8210 sections 5.2, 5.3, 8.2), for the Serial Queries it must write
+        rt = [{'done': 0, 'sid': 0, 'serial': 0, 'eod': False, 'permit': False} for _ in range(n)]
         prev_tab = None
         if [list(x) for x in obs[0][1]] != [RESET_QUERY] * n:
             fails.append((0, 'query', 'start: every session must begin with a Reset Query'))
@@ -314,8 +425,10 @@ class Prop:
             if len(set(tab)) != len(tab):
                 fails.append((k, 'set', 'event %d: a VRP is installed twice' % k))
             cc = None
+            alive_before = None
             if e is not None:
                 cc = e[1]
+                alive_before = not ended[cc]
                 if not ended[cc]:
                     if e[0] == 'feed': stream[cc] = stream[cc] + list(e[2])
                     elif e[0] in ('close', 'cancel'): ended[cc] = True
@@ -327,47 +440,67 @@ class Prop:
                     if oc != cc and [x for x in tab if x[5] == oc] != [x for x in prev_tab if x[5] == oc]:
                         fails.append((k, 'isolation', 'event %d on session %d changed the VRPs of session %d' % (k, cc, oc)))
             prev_tab = tab
+            expect_sent = []
             for s in range(n):
                 mine = [x for x in tab if x[5] == s]
+                # (session end) once a session is over, for whatever reason, everything of that cache is gone
+                if ob[0][s] and mine:
+                    fails.append((k, 'session-end', 'event %d: session %d has ended but %d of its VRPs remain' % (k, s, len(mine))))
                 if ended[s]:
-                    # (session end) everything of that cache is gone
-                    if mine: fails.append((k, 'session-end', 'event %d: session %d has ended but %d of its VRPs remain' % (k, s, len(mine))))
                     if not ob[0][s]: fails.append((k, 'session-end', 'event %d: session %d did not terminate' % (k, s)))
                     continue
                 pdus, _ = parse_stream(stream[s])
+                broken = bool(pdus) and pdus[-1]['type'] == 'error'
+                if broken:
+                    # a malformed stream: the property leaves the reaction open (the code ends the session);
+                    # only "ended => cleared" above is judged
+                    continue
+                if ob[0][s]:
+                    fails.append((k, 'progress', 'event %d: session %d was ended by the client on a well-formed stream' % (k, s)))
+                    continue
                 # (fold) after an End-of-Data, installed = fold of the responses
                 cur, neod, sid, serial, last_payload_after_eod = set(), 0, 0, 0, False
                 for p in pdus:
-                    if p['type'] in (4, 6) and 'net' in p:
+                    if p['type'] in (4, 6):
                         key = (p['net'][0], p['net'][1], p['net'][2], p['mx'], p['asn'], s)
                         if p['flags'] & 1: cur.add(key)
                         else: cur.discard(key)
                         last_payload_after_eod = True
-                    elif p['type'] == 7 and 'serial' in p:
+                    elif p['type'] == 7:
                         neod += 1; serial = p['serial']; last_payload_after_eod = False
                     elif p['type'] == 3:
                         sid = p['sid']
-                if s == cc or cc is None:
+                if s == (cc if cc is not None else 0):
                     # (progress) every complete PDU has been consumed: the counters follow the stream
                     st = ob[3]
-                    if s == (cc if cc is not None else 0):
-                        if st[2] != neod or (neod and st[1] != serial) or st[0] != sid:
-                            fails.append((k, 'progress', 'event %d: session %d has received %d End-of-Data PDUs (serial %d, session id %d) but the client is at %d (serial %d, session id %d)' % (
-                                k, s, neod, serial, sid, st[2], st[1], st[0])))
+                    if st[2] != neod or (neod and st[1] != serial) or st[0] != sid:
+                        fails.append((k, 'progress', 'event %d: session %d has received %d End-of-Data PDUs (serial %d, session id %d) but the client is at %d (serial %d, session id %d)' % (
+                            k, s, neod, serial, sid, st[2], st[1], st[0])))
                 if conforming and neod > 0 and not last_payload_after_eod:
                     if mine != sorted(cur):
                         fails.append((k, 'fold', 'event %d: after End-of-Data #%d of session %d the installed VRPs (%d) differ from the fold of the cache\'s responses (%d)' % (
                             k, neod, s, len(mine), len(cur))))
-            # (queries) what the client wrote: Serial Queries with its current session id and serial
+                # (queries) the Serial Queries this event must produce
+                if s == cc and alive_before:
+                    r = rt[s]
+                    if e[0] == 'feed':
+                        for p in pdus[r['done']:]:
+                            if p['type'] == 3: r['sid'] = p['sid']
+                            elif p['type'] == 7: r['serial'] = p['serial']; r['eod'] = True
+                            elif p['type'] == 0 and r['eod'] and p['serial'] != r['serial']:
+                                expect_sent += serial_query(r['sid'], r['serial'])
+                        r['done'] = len(pdus)
+                    elif e[0] == 'soft':
+                        r['permit'] = True
+                    if r['permit'] and r['eod']:
+                        expect_sent += serial_query(r['sid'], r['serial']); r['permit'] = False
+                    if conforming and list(ob[1][s]) != expect_sent:
+                        fails.append((k, 'query', 'event %d: session %d wrote %d bytes, a router answers this event with %d bytes of Serial Queries (session id %d, serial %d)' % (
+                            k, s, len(ob[1][s]), len(expect_sent), r['sid'], r['serial'])))
             if e is not None:
                 for s in range(n):
-                    w = list(ob[1][s])
-                    if s != cc and w:
+                    if s != cc and list(ob[1][s]):
                         fails.append((k, 'query', 'event %d: session %d wrote without being driven' % (k, s)))
-                    if s == cc and w:
-                        qs, used = parse_stream(w)
-                        if used != len(w) or any(q['type'] != 1 for q in qs):
-                            fails.append((k, 'query', 'event %d: the client wrote something that is not a Serial Query' % k))
         return fails
 
     KNOWN_CLASS = {}
@@ -409,6 +542,8 @@ class Prop:
 
     def classify(self, c, obs):
         tags = ['kind_' + c.get('kind', '?'), 'sessions_%d' % c['n']]
+        if c.get('cls'): tags.append('enum_' + c['cls'])
+        if obs != [-1] and any(o != [-1] and any(o[0]) for o in obs): tags.append('session_ended')
         for types, partial in self.shape(c):
             eods = sum(1 for t in types if t[0] == 7)
             tags.append('eod_%s' % ('0' if eods == 0 else '1' if eods == 1 else '2+'))
@@ -425,6 +560,6 @@ class Prop:
         return sorted(set(tags))
 
 Prop.required_theorems = [
-    'installed_eq_fold_at_eod', 'installed_eq_fold_pre_refuted', 'drain_runs_parsed', 'rtr_fragmentation_invariant',
-    'rtr_client_progress', 'rtr_client_progress_pre_refuted', 'caches_isolated', 'session_end_clears',
+    'installed_eq_fold_at_eod', 'installed_eq_fold_pre_refuted', 'apply_evs_runs_pdus', 'rtr_fragmentation_invariant',
+    'rtr_idle_buffer_incomplete', 'rtr_client_progress', 'rtr_client_progress_pre_refuted', 'caches_isolated', 'session_end_clears',
 ]
